@@ -6,6 +6,17 @@ export VERIF_ROOT="$(pwd)"
 id="$1"; tier="${2:-${VERIF_TIER:-quick}}"; shift; shift
 export VERIF_TIER="$tier"
 mkdir -p bin .work
+# VERIF_REPO (development aid): run the check against another checkout of the
+# repository (a scratch worktree, a vp-run snapshot) instead of /repo.
+if [ -n "$VERIF_REPO" ] && [ "$VERIF_REPO" != /repo ]; then
+  alt=".work/alt-$$"; mkdir -p "$alt"
+  sed "s#=> /repo#=> $VERIF_REPO#" go.mod > "$alt/go.mod"; cp go.sum "$alt/go.sum"
+  export GOFLAGS="-mod=mod -modfile=$(pwd)/$alt/go.mod"
+  trap 'rm -rf "$alt"' EXIT
+  go build -o "bin/vcheck.$$" ./cmd/vcheck || { echo "ENGINE-ERROR property=$id cannot build vcheck"; exit 2; }
+  mv "bin/vcheck.$$" "bin/vcheck.alt.$$"
+  "bin/vcheck.alt.$$" "$id" "$@"; rc=$?; rm -f "bin/vcheck.alt.$$"; exit $rc
+fi
 go build -o "bin/vcheck.$$" ./cmd/vcheck || { echo "ENGINE-ERROR property=$id cannot build vcheck"; exit 2; }
 mv "bin/vcheck.$$" bin/vcheck
 exec bin/vcheck "$id" "$@"
